@@ -58,6 +58,7 @@ static const int CANON[] = {FU_TELLS, FU_META, FU_ATEND, FU_PLAY64, FU_TICK, FU_
                             FU_LOOP_ON, FU_PLAYLONG, FU_SEEK0, FU_PLAY4096, FU_META, FU_TELLS};
 
 struct Loaded { pl::Instance I; bool ok = false; };
+static bool g_via_file = false;
 
 static bool load(Loaded &L, const Bytes &b, en::CaseOut &o, int presel_song = -2) {
     L.I.create(44100); L.I.tap.logging = false;   // the harness's own register log must not count against the heap budget
@@ -67,15 +68,19 @@ static bool load(Loaded &L, const Bytes &b, en::CaseOut &o, int presel_song = -2
     if(presel_song != -2) opn2_selectSongNum(d, presel_song);
     mt::reset();
     uint8_t *blk = (uint8_t *)malloc(b.size() ? b.size() : 1); if(b.size()) memcpy(blk, b.data(), b.size());
-    int rc = opn2_openData(d, blk, (unsigned long)b.size());
+    int rc;
+    if(g_via_file) {   // the same bytes through the FILE*-backed reader (seeks are not clamped to the size there)
+        FILE *f = fopen("c01_input.bin", "wb"); if(!f) { o.fail("C01/harness", "cannot write the input file"); free(blk); return false; } if(b.size()) fwrite(blk, 1, b.size(), f); fclose(f);
+        rc = opn2_openFile(d, "c01_input.bin");
+    } else rc = opn2_openData(d, blk, (unsigned long)b.size());
     free(blk);
     if(rc == 0) { o.tags |= 1ull << T_LOADED; o.nontrivial = true; L.ok = true;
         switch(L.I.play()->m_sequencer->getFormat()) { case MidiSequencer::Format_MIDI: o.tags |= 1ull << T_SMF; break; case MidiSequencer::Format_XMIDI: o.tags |= 1ull << T_XMI; break; case MidiSequencer::Format_RSXX: o.tags |= 1ull << T_RSXX; break; default: break; } }
     else {
         o.tags |= 1ull << T_REJECTED;
-        if(rc != -1) o.fail("C01/undefined-return", "opn2_openData returned " + std::to_string(rc));
+        if(rc != -1) o.fail("C01/undefined-return", std::string(g_via_file ? "opn2_openFile" : "opn2_openData") + " returned " + std::to_string(rc));
         const char *e = opn2_errorInfo(d);
-        if(!e || !*e) o.fail("C01/empty-error-text", "opn2_openData failed with an empty error text");
+        if(!e || !*e) o.fail("C01/empty-error-text", std::string(g_via_file ? "opn2_openFile" : "opn2_openData") + " failed with an empty error text");
     }
     return L.ok;
 }
@@ -200,6 +205,14 @@ int main(int argc, char **argv) {
       F.run = [](uint64_t i, en::CaseOut &o) { const FieldRef &f = g_fields[(size_t)(i % g_fields.size())]; unsigned vi = (unsigned)((i / g_fields.size()) % 12), bs = (unsigned)(i / g_fields.size() / 12);
         Bytes b = seed_by_name(f.seed); uint32_t v = f.width == 4 ? BND32[vi] : (f.width == 1 ? (BND16[vi] & 0xFF) : BND16[vi]); set_field(b, f, v); if(bs == 1 && !b.empty()) b.pop_back(); else if(bs == 2) b.push_back(0);
         o.sample = f.name + " := " + std::to_string(v) + (bs == 1 ? " (body -1)" : bs == 2 ? " (body +1)" : ""); run_case(b, o); };
+      fams.push_back(F); }
+    { en::Family F; F.name = "fields_single_via_file"; F.count = (uint64_t)g_fields.size() * 12 * 3 + g_seeds.size(); F.chunk = 8; F.budget_s = 60; F.describe = "the same header-field boundary cases, and the unchanged seeds, written to a file and loaded through opn2_openFile (FILE*-backed reader: seeks beyond the end are not clamped as they are by the memory reader)";
+      F.run = [](uint64_t i, en::CaseOut &o) { uint64_t nf = (uint64_t)g_fields.size() * 12 * 3; Bytes b;
+        if(i >= nf) { b = g_seeds[(size_t)(i - nf)].second; o.sample = g_seeds[(size_t)(i - nf)].first + " via file"; }
+        else { const FieldRef &f = g_fields[(size_t)(i % g_fields.size())]; unsigned vi = (unsigned)((i / g_fields.size()) % 12), bs = (unsigned)(i / g_fields.size() / 12);
+          b = seed_by_name(f.seed); uint32_t v = f.width == 4 ? BND32[vi] : (f.width == 1 ? (BND16[vi] & 0xFF) : BND16[vi]); set_field(b, f, v); if(bs == 1 && !b.empty()) b.pop_back(); else if(bs == 2) b.push_back(0);
+          o.sample = f.name + " := " + std::to_string(v) + " via file"; }
+        g_via_file = true; run_case(b, o); g_via_file = false; };
       fams.push_back(F); }
     if(thorough) {
       en::Family F; uint64_t np = 0; std::vector<std::pair<size_t, size_t>> pairs; for(size_t x = 0; x < g_fields.size(); x++) for(size_t y = x + 1; y < g_fields.size(); y++) if(g_fields[x].seed == g_fields[y].seed) pairs.push_back({x, y}); np = pairs.size();
